@@ -87,6 +87,17 @@ pub struct NameKey(pub String);
 pub struct IdKey(pub u16);
 #[derive(serde::Serialize, Deserialize, PartialEq, Eq, PartialOrd, Ord, Hash, Debug, Clone)]
 pub struct WrappedKey(pub Key);
+/// Newtype structs around things that are themselves encoded as a sequence
+/// of one element (a newtype struct is transparent: whatever unwrapping it
+/// does must not eat a level of its content).
+#[derive(serde::Serialize, Deserialize, PartialEq, Debug, Clone)]
+pub struct Chan(pub [u16; 1]);
+#[derive(serde::Serialize, Deserialize, PartialEq, Debug, Clone)]
+pub struct Wrap1(pub (u8,));
+#[derive(serde::Serialize, Deserialize, PartialEq, Debug, Clone)]
+pub struct WrapVV(pub Vec<Vec<u8>>);
+#[derive(serde::Serialize, Deserialize, PartialEq, Debug, Clone)]
+pub struct WrapOptSeq(pub Option<Vec<i8>>);
 #[derive(serde::Serialize, Deserialize, PartialEq, Debug, Clone)]
 pub struct Nested {
     pub p: Point,
@@ -207,7 +218,7 @@ fn g_tree() -> BS<Tree> {
 
 /// Visit every type of the family with its strategy.
 /// number of `visit` calls made by [`for_each_type`]
-pub const N_FAM_TYPES: usize = 55;
+pub const N_FAM_TYPES: usize = 59;
 
 pub fn for_each_type<V: TypeVisitor>(v: &mut V) {
     v.visit::<i8>("i8", ints(i8::MIN as i128, i8::MAX as i128));
@@ -274,6 +285,10 @@ pub fn for_each_type<V: TypeVisitor>(v: &mut V) {
             .prop_map(|(a, c, e)| WithOpt { a, b: (), c, d: UnitS, e })
             .boxed(),
     );
+    v.visit::<Chan>("Chan([u16;1])", any::<u16>().prop_map(|x| Chan([x])).boxed());
+    v.visit::<Wrap1>("Wrap1((u8,))", any::<u8>().prop_map(|x| Wrap1((x,))).boxed());
+    v.visit::<WrapVV>("WrapVV(Vec<Vec<u8>>)", vec(vec(any::<u8>(), 0..3), 0..3).prop_map(WrapVV).boxed());
+    v.visit::<WrapOptSeq>("WrapOptSeq(Option<Vec<i8>>)", proptest::option::of(vec(any::<i8>(), 0..3)).prop_map(WrapOptSeq).boxed());
     v.visit::<WithSkip>(
         "WithSkip",
         (
